@@ -46,7 +46,9 @@ for d in sorted(glob.glob(os.path.join(V, "seeded", "*", "meta.json"))):
     name = os.path.basename(os.path.dirname(d))
     m = json.load(open(d))
     r = res.get(name, {})
-    if isinstance(r, dict) and r:
+    if m.get("retired"):
+        caught, how, detail = "retired", "", m["retired"][:200]
+    elif isinstance(r, dict) and r:
         caught = "yes" if r.get("caught") else "NO"
         how = ("input" if r.get("with_input") else "tie only") if r.get("caught") else "-"
         detail = (r.get("detail") or [""])[0][:160].replace("|", "\\|")
